@@ -460,52 +460,86 @@ type TxResult struct {
 // Deliver runs one message as its own transaction: ValidateBasic, then the
 // msg server in a cache context with panic recovery; writes only on success.
 func (h *Hub) Deliver(msg sdk.Msg) TxResult {
+	rs := h.DeliverTx([]sdk.Msg{msg})
+	return rs[0]
+}
+
+// DeliverTx runs several messages as ONE transaction (same tx bytes, hence the
+// same module-visible tx hash; all or nothing, as baseapp's runMsgs does).
+func (h *Hub) DeliverTx(msgs []sdk.Msg) []TxResult {
 	if !h.inBlock {
 		panic("Deliver outside a block")
 	}
-	if err := msg.ValidateBasic(); err != nil {
-		return TxResult{Err: fmt.Errorf("%w: %v", ErrStateless, err)}
+	out := make([]TxResult, len(msgs))
+	for i, msg := range msgs {
+		if err := msg.ValidateBasic(); err != nil {
+			for j := range out {
+				out[j] = TxResult{Err: fmt.Errorf("%w: %v", ErrStateless, err)}
+			}
+			_ = i
+			return out
+		}
 	}
 	h.txCount++
 	txBytes := []byte(fmt.Sprintf("verif-tx-%d", h.txCount))
 	sum := sha256.Sum256(txBytes)
-	res := TxResult{TxHash: hex.EncodeToString(sum[:])}
+	hash := hex.EncodeToString(sum[:])
 	cctx, write := h.ctx.WithTxBytes(txBytes).WithEventManager(sdk.NewEventManager()).CacheContext()
-	func() {
-		defer func() {
-			if r := recover(); r != nil {
-				res.Err = fmt.Errorf("panic in handler: %v", r)
-				res.Panicked = true
+	failed := false
+	for i, msg := range msgs {
+		res := TxResult{TxHash: hash}
+		if failed {
+			res.Err = fmt.Errorf("transaction aborted by an earlier message")
+			out[i] = res
+			continue
+		}
+		func() {
+			defer func() {
+				if r := recover(); r != nil {
+					res.Err = fmt.Errorf("panic in handler: %v", r)
+					res.Panicked = true
+				}
+			}()
+			c := sdk.WrapSDKContext(cctx)
+			switch m := msg.(type) {
+			case *mtypes.MsgSendToExternal:
+				res.Resp, res.Err = h.Msg.SendToExternal(c, m)
+			case *mtypes.MsgCancelSendToExternal:
+				res.Resp, res.Err = h.Msg.CancelSendToExternal(c, m)
+			case *mtypes.MsgRequestBatchTx:
+				res.Resp, res.Err = h.Msg.RequestBatchTx(c, m)
+			case *mtypes.MsgSubmitExternalEvent:
+				res.Resp, res.Err = h.Msg.SubmitExternalEvent(c, m)
+			case *mtypes.MsgSubmitExternalTxConfirmation:
+				res.Resp, res.Err = h.Msg.SubmitTxConfirmation(c, m)
+			case *mtypes.MsgDelegateKeys:
+				res.Resp, res.Err = h.Msg.SetDelegateKeys(c, m)
+			case *otypes.MsgPriceClaim:
+				res.Resp, res.Err = h.OMsg.PriceClaim(c, m)
+			case *otypes.MsgHoldersClaim:
+				res.Resp, res.Err = h.OMsg.HoldersClaim(c, m)
+			default:
+				res.Err = fmt.Errorf("unroutable message %T", msg)
 			}
 		}()
-		c := sdk.WrapSDKContext(cctx)
-		switch m := msg.(type) {
-		case *mtypes.MsgSendToExternal:
-			res.Resp, res.Err = h.Msg.SendToExternal(c, m)
-		case *mtypes.MsgCancelSendToExternal:
-			res.Resp, res.Err = h.Msg.CancelSendToExternal(c, m)
-		case *mtypes.MsgRequestBatchTx:
-			res.Resp, res.Err = h.Msg.RequestBatchTx(c, m)
-		case *mtypes.MsgSubmitExternalEvent:
-			res.Resp, res.Err = h.Msg.SubmitExternalEvent(c, m)
-		case *mtypes.MsgSubmitExternalTxConfirmation:
-			res.Resp, res.Err = h.Msg.SubmitTxConfirmation(c, m)
-		case *mtypes.MsgDelegateKeys:
-			res.Resp, res.Err = h.Msg.SetDelegateKeys(c, m)
-		case *otypes.MsgPriceClaim:
-			res.Resp, res.Err = h.OMsg.PriceClaim(c, m)
-		case *otypes.MsgHoldersClaim:
-			res.Resp, res.Err = h.OMsg.HoldersClaim(c, m)
-		default:
-			res.Err = fmt.Errorf("unroutable message %T", msg)
+		if res.Err != nil {
+			failed = true
 		}
-	}()
-	if res.Err == nil {
-		write()
-		res.Events = cctx.EventManager().Events()
-		h.Events = append(h.Events, res.Events...)
+		out[i] = res
 	}
-	return res
+	if !failed {
+		write()
+		evs := cctx.EventManager().Events()
+		h.Events = append(h.Events, evs...)
+		out[len(out)-1].Events = evs
+	} else {
+		for i := range out {
+			if out[i].Err == nil {
+				out[i].Err = fmt.Errorf("transaction aborted by a later message")
+			}
+		}
+	}
+	return out
 }
 
 // Fund mints vouchers to an account outside any transaction (test set-up only;
